@@ -324,7 +324,7 @@ class Gen:
                 body.append(['probe', pool])
             elif k == 'mut':
                 body.append(['mut', rng.choice(['last', 'last', 'args',
-                                                'callargs'])])
+                                                'callargs', 'versions'])])
             elif k == 'dup':
                 if ctx['calls']:
                     body.append(list(rng.choice(ctx['calls'])))
@@ -1117,6 +1117,7 @@ def gen_threads(seed, params=None):
         # a directory that exists before the build and in which only a
         # failing target is built: its listing is empty at any moment
         init.append(['mkdir', 'pk'])
+        peeked.add('pk/bad')
         i, j = rng.sample(range(nt), 2)
         bodies[i].insert(rng.randint(0, len(bodies[i])), [
             'bf', 'pk/bad', rng.choice(['Fbad', 'Fnone']), [i], {},
@@ -1132,6 +1133,7 @@ def gen_threads(seed, params=None):
                 if st[0] == 'bf' and st[1] not in peeked and \
                         rng.random() < 0.7:
                     init.append(['write', st[1], 'foreign-' + st[1]])
+    spelled = False
     spawn = ['spawn', bodies]
     if rng.random() < P['p_same_key']:
         # C08: the same key from two threads (identical bodies)
@@ -1145,7 +1147,21 @@ def gen_threads(seed, params=None):
             funcs['Ssame'] = {'kind': 'sub', 'name': 'nSsame', 'variants': [
                 [['q', 'read_text', 'x0', 'METADATA']]]}
             b = [['sb', 'Ssame', [1], {}, True]]
-        spawn = ['spawn', [list(b) for _ in range(nt)], 'sym']
+        variants = [[list(st) for st in b] for _ in range(nt)]
+        spelled = rng.random() < P.get('p_spell', 0.0)
+        if spelled:
+            # C07: the racing calls spell the same key differently
+            if b[0][0] == 'bf':
+                for v in variants:
+                    sp = rng.choice([None, 'bytes', 'pathlike', 'redundant',
+                                     'dotdot'])
+                    if sp:
+                        v[0] = v[0][:7] + [sp]
+            else:
+                fam = rng.choice([c[0] for c in CONFUSABLE if len(c[0]) > 1])
+                for v in variants:
+                    v[0][2] = [rng.choice(fam)]
+        spawn = ['spawn', variants, 'sym']
     post = [['probe', sorted(set(
         [''] + outputs + [a for o in outputs for a in ancestors(o)]))]]
     r = rng.random()
@@ -1186,8 +1202,9 @@ def gen_threads(seed, params=None):
         'profile': 'threads', 'seed': seed,
         'config': {'cache_rel': rng.choice(['../cache.gz', 'cache.gz',
                                             '../cd/cache.gz']),
-                   'build_name': 'B',
+                   'build_name': 'B', 'spelled_race': spelled,
                    'listdir_seed': rng.randrange(1 << 30)},
         'init': init, 'funcs': funcs, 'roots': roots, 'steps': steps,
         'n_threads': nt,
     }
+
